@@ -48,6 +48,24 @@ pub fn judge(spec: &RunSpec, out: &Outcome) -> Vec<Violation> {
         if !spec.docs[d].in_workspace {
             continue;
         }
+        if !crate::oracle::workspace_file_at_end(spec, out, d) {
+            // excluded from the workspace by the final configuration: the reload removed it from
+            // the analysis, so (if anything was ever published for it) it ends with an empty set
+            let uri = &out.uris[d];
+            if let Some(last) = out.publishes.get(uri).and_then(|ps| ps.iter().filter(|p| p.seq < out.probe_start_seq).last()) {
+                if !last.diagnostics.is_empty() {
+                    vs.push(Violation {
+                        class: "C30:excluded-doc:nonempty-last-publication".into(),
+                        detail: format!(
+                            "doc {d} ({}) left the workspace (ignoreGlobs) and was removed by the reload; last publication still has {} diagnostics",
+                            spec.docs[d].rel,
+                            last.diagnostics.len()
+                        ),
+                    });
+                }
+            }
+            continue;
+        }
         let uri = &out.uris[d];
         let last = out
             .publishes
